@@ -34,7 +34,10 @@ def make_copy(edits):
             shutil.rmtree(d)
             raise ValueError("edit anchor not found in %s: %r" % (e["file"], old[:60]))
         idx = e.get("count")
-        if idx is None:
+        if e.get("all"):
+            import re
+            s = re.sub(r"\b%s\b" % re.escape(old), new, s) if e.get("word") else s.replace(old, new)
+        elif idx is None:
             if n != 1:
                 shutil.rmtree(d)
                 raise ValueError("edit anchor ambiguous (%d) in %s: %r" % (n, e["file"], old[:60]))
@@ -55,10 +58,20 @@ def make_copy(edits):
     return d
 
 
+def apply_patch(d, patch):
+    """Apply a unified diff (paths a/src/catii/...) to the scratch copy with patch(1)."""
+    p = subprocess.run(["patch", "-p1", "-s", "-d", d, "-i", os.path.join(VERIF, patch)], capture_output=True, text=True)
+    if p.returncode != 0:
+        shutil.rmtree(d, ignore_errors=True)
+        raise ValueError("patch %s does not apply: %s" % (patch, (p.stdout + p.stderr)[-200:]))
+
+
 def run_variant(v, tier="quick"):
-    edits = v.get("edits") or [v]
+    edits = v.get("edits") or ([] if v.get("patch") else [v])
     try:
         d = make_copy(edits)
+        if v.get("patch"):
+            apply_patch(d, v["patch"])
     except ValueError as e:
         return {"name": v["name"], "ok": False, "rc": None, "why": str(e), "out": ""}
     try:
